@@ -423,7 +423,13 @@ class Gen:
         reg = r.choice(['X', 'Y'])
         if self.in_loop and reg not in self.free_counters:
             reg = None
-        k = r.randrange(12)
+        k = r.randrange(13)
+        if k == 12:
+            # a subtraction (sets the carry), then ++/-- of a byte, then that byte ordered against 0
+            v, w, x = u(), u(), u()
+            upd = ('expr', ('inc', r.choice(['++x', 'x++', '--x', 'x--']), x))
+            return [asg(v, ('bin', '-', v, w)), upd,
+                    ('if', ('bin', r.choice(['>', '<=', '==', '!=']), x, N(0)), ('block', [asg(u(), N(7))]), None)]
         if k == 9 and getattr(self, 'const_ret', None) and not getattr(self, '_fn_callable', None):
             # the result of a two-result function compared with one of its results
             name = r.choice(list(self.const_ret))
